@@ -6,18 +6,19 @@ import os
 V = os.path.dirname(os.path.dirname(os.path.abspath(__file__)))
 INTRO = '''### 8.5 Seeded changes (independent sub-agents, property text only) and which checks catch them
 
-Five rounds (20 + 20 + 12 + 20 + 20 changes, one per property and round). Every sub-agent got the property text, the list of relevant source files and its own scratch git
+Six rounds (20 + 20 + 12 + 20 + 20 + 20 changes, one per property and round). Every sub-agent got the property text, the list of relevant source files and its own scratch git
 worktree of /repo, nothing from /verif; agents of later rounds were additionally told which functions the earlier changes had touched, to go elsewhere. Each change
 was confirmed by `tools/seed_confirm.sh` (demo passes on the unchanged tree and fails with the patch; the whole test-suite with the patch gives exactly the
 baseline lists) and evaluated with `tools/seed_eval_copy.sh` on a scratch copy of /repo; nothing was ever committed or left applied in /repo.
-`seeded/<id>[-r2|...|-r5]/` holds patch.diff, demo.py and meta.json (with the evaluation).
+`seeded/<id>[-r2|...|-r6]/` holds patch.diff, demo.py and meta.json (with the evaluation).
 
 Result: %s. What the misses had in common: the *discrete* parameters of a job (configuration-list layouts, option combinations, operand kinds, call
 histories, file-name orders) are a finite family chosen by hand, while the numeric data are symbolic; a change that needs a layout / combination outside the
 family is invisible. Every miss was answered by widening the family or by an engine feature (truthiness of symbolic reals, floating-point domains, a text-file
 model, an eigen-decomposition contract, tiny / huge replay data, CrossHair on symbolic name strings, the failure mode of the minimiser contracts, numpy's dtype inference in the
 shim's vectorize, struct.unpack_from in the typed buffer, an exact model of rfft / irfft that lets the FFT branch run, the determinant as a polynomial, a model of h5py), never by
-special-casing the seeded patch; the new harnesses found nine genuine defects (8.4).
+special-casing the seeded patch; the new harnesses found ten genuine defects (8.4). Two changes of round 6 are caught by the check of a neighbouring property and not by
+their own (C02-r6 by the relabelling invariance of C03 because C02 takes w_max from the code; C04-r6 by the union bookkeeping of C01 because the wrong result is itself well-formed).
 Three changes are not caught and are outside the claim, all for the same reason - they are invisible in exact real arithmetic: C15-r4 needs a central value of exactly 0.0
 (Inf / NaN semantics), C13-r5 replaces lstsq by the normal equations (same function, squared condition number in floating point), C16-r5 replaces a hash comparison by an
 absolute tolerance of 1e-10 (needs matrices of size 1e-12; the harness forces the symmetrising branch because hashing of symbolic data is not modelled).
